@@ -380,6 +380,9 @@ seed("C02", "mark-expires-late", "ring mark expires one slot late", ["C02.P2", "
 seed("C07", "compare-ring-never-wraps-flag", "wrapped flag set one step late", ["C07.K5"],
      (FL, "\tif fl.currentIndex == 0 {\n\t\tfl.bufferFull = true\n\t}", "\tif fl.currentIndex == 1 {\n\t\tfl.bufferFull = true\n\t}"))
 
+seed("C04", "window-start-stop-swapped", "recording window built with start and stop swapped", ["C04.S7"],
+     (RC, "\t\twindowsConfig.StartRecording,\n\t\twindowsConfig.StopRecording,", "\t\twindowsConfig.StopRecording,\n\t\twindowsConfig.StartRecording,"))
+
 here = os.path.dirname(os.path.abspath(__file__))
 for pid, name, d in S:
     os.makedirs(os.path.join(here, pid), exist_ok=True)
